@@ -799,3 +799,7 @@ mod tests {
         assert!(edge.is_none());
     }
 }
+
+#[cfg(discret_verif)]
+#[path = "/verif/hooks/edge.rs"]
+pub(crate) mod verif_hook;
